@@ -2,7 +2,7 @@ package rules
 
 func init() {
 	reg("C09", &PropSpec{
-		Rules:       []Rule{r("J1", RuleJ1), r("ID1", RuleID1), r("X1", RuleX1), r("TG", RuleTG), r("M1", RuleM1), r("D4", RuleD4), r("RV1", RuleRV1), r("TI1", RuleTI1)},
+		Rules:       []Rule{r("J1", RuleJ1), r("ID1", RuleID1), r("ID2", RuleID2), r("X1", RuleX1), r("TG", RuleTG), r("M1", RuleM1), r("D4", RuleD4), r("RV1", RuleRV1), r("TI1", RuleTI1)},
 		Explanation: "Decided: the text form of each structured map key is injective (J1: one Sprintf with at most one free-form operand; today JsonRpcInteractionId has two - known finding F12); every interaction is stored under the id it was built from and copies id/protocol/method/path from it (ID1); serialisation switches list every declared notation/method so serialising an accepted catalog has no failure arm a declared constant reaches (X1); tags and interactions are registered together, tag names come from members of the Tags collection, no interaction is left without a tag (TG); every model field is serialised (M1); ordered collections serialise in insertion order with one entry per key (D4); the validation stage checks every response, not a chosen one (RV1); Title() returns Info.Title itself (TI1). Not decided: UTF-8 validity of names, equality of indented and compact forms (encoding/json), existence of every used type beyond the library's own rejection.",
 		Trusted:     trustedCommon,
 	})
@@ -12,7 +12,7 @@ func init() {
 		Trusted:     trustedCommon,
 	})
 	reg("C04", &PropSpec{
-		Rules:       []Rule{r("K1", RuleK1), r("M1", RuleM1), r("D4", RuleD4), r("K2", RuleK2), r("ID1", RuleID1), r("X1", RuleX1), r("R4", RuleR4)},
+		Rules:       []Rule{r("K1", RuleK1), r("M1", RuleM1), r("D4", RuleD4), r("K2", RuleK2), r("ID1", RuleID1), r("ID2", RuleID2), r("X1", RuleX1), r("R4", RuleR4), r("K2p", RuleK2p)},
 		Explanation: "Whole-document equality with a model is not statically decidable. Decided necessary conditions: every directive kind has a consumer (K1: a kind without one is silently dropped); every field of the catalog model is serialised (M1); collections keep and serialise source order (D4); every directive of the table can be spelled to the scanner and nothing else can (K2); interactions are stored under the id they were built from (ID1); total serialisation switches (X1). Not decided: which interaction a child attaches to (C06), that values are copied unchanged, 'nothing else'.",
 		Trusted:     trustedCommon,
 	})
